@@ -5,7 +5,7 @@
 From Coq Require Import NArith List Lia ZArith Bool.
 Require Import SDS.Model.Mach SDS.Model.Bits SDS.Model.Raw SDS.Model.IntVec SDS.Model.RL SDS.gen.Consts SDS.gen.Funs.
 Require Import SDS.Spec.Runs.
-Require Import SDS.Proofs.BitsProof SDS.Proofs.RLIntVec SDS.Proofs.RLVarint SDS.Proofs.RLIndex SDS.Proofs.RLRep.
+Require Import SDS.Proofs.BitsProof SDS.Proofs.RLIntVec SDS.Proofs.RLVarint SDS.Proofs.RLIndex SDS.Proofs.RLRep SDS.Proofs.RunsLemmas.
 Import ListNotations.
 Open Scope N_scope.
 Require Import ZifyBool ZifyN ZifyNat.
@@ -258,25 +258,8 @@ Qed.
 
 (* ---- a sorted list of runs through try_set ---- *)
 
-Fixpoint runs_srt (from : N) (R : list run) : Prop :=
-  match R with
-  | [] => True
-  | r :: t => from <= fst r /\ 1 <= snd r /\ runs_srt (fst r + snd r) t
-  end.
-Lemma runs_srt_sorted from R : runs_srt from R <-> runs_sorted from R.
-Proof.
-  revert from. induction R as [|[s l] t IH]; intros from; cbn [runs_srt runs_sorted fst snd]; [tauto|].
-  rewrite IH. tauto.
-Qed.
-
 Definition try_ops (R : list run) : list bop := map (fun r => BTrySet (fst r) (snd r)) R.
 Definition all_true {A} (l : list A) : list bool := map (fun _ => true) l.
-
-Lemma runs_srt_end from R : runs_srt from R -> from <= runs_end_from from R.
-Proof.
-  revert from. induction R as [|r t IH]; intros from H; cbn [runs_end_from]; [lia|].
-  destruct H as (H0 & H1 & H2). apply IH in H2. lia.
-Qed.
 
 Lemma build_runs m : forall rest b BS,
   SInv b BS -> PInv b BS -> snd (b_run b) <> 0 ->
